@@ -7,15 +7,18 @@ Inductive c10case :=
    ops / xst / stop as in ServeCheck.mk_env; cs = chunks read.
    Observed: wire = every response on the wire (status, Connection values) in order; seen = request targets the
    handler saw; early = the server closed the connection before the client closed its side. *)
-| CHist (en : entry) (cfg : scfg) (reqs : list (bool * list bytes)) (ops : list (list hop)) (xst : list Z) (stop : option N)
+| CHist (en : entry) (ad : admission) (cfg : scfg) (reqs : list (bool * list bytes)) (ops : list (list hop)) (xst : list Z) (stop : option N)
         (cs : list bytes) (t : tail)
         (wire : list (Z * list bytes)) (seen : list bytes) (early : bool)
 (* RequestHeader.Read of a request with these Connection lines: ConnectionClose() *)
 | CReqFlag (http11 : bool) (vals : list bytes) (impl : bool)
 (* ResponseHeader.Read of a response (Content-Length: 0) with these Connection lines: ConnectionClose() *)
 | CRespFlag (http11 : bool) (vals : list bytes) (impl : bool)
-(* a real HostClient does two requests; the first response carries these Connection lines; dials = connections opened *)
-| CClient (vals : list bytes) (dials : Z)
+(* a real HostClient does two requests; the first response is HTTP/1.1 or 1.0 (http11), with Content-Length: 0 or
+   (ident) without any framing header, and carries these Connection lines; reqclose: the first request has
+   SetConnectionClose; reset: MaxConnDuration has expired (resetConnection); stream: StreamResponseBody.
+   dials = connections opened *)
+| CClient (http11 ident reqclose reset stream : bool) (vals : list bytes) (dials : Z)
 (* operations on a ResponseHeader, then Header(): the Connection values written and ConnectionClose() *)
 | CRespSet (ops : list hop) (written : list bytes) (flag : bool).
 
@@ -32,13 +35,14 @@ Definition model_early (evs : list event) : bool := model_early_from false evs.
 
 Definition corr_ok (c : c10case) : bool :=
   match c with
-  | CHist en cfg reqs ops xst stop cs t wire_i seen early =>
-      let evs := run en Admit cfg ops xst stop cs t in
+  | CHist en ad cfg reqs ops xst stop cs t wire_i seen early =>
+      let evs := run en ad cfg ops xst stop cs t in
       list_eqb resp_eqb (wire evs) wire_i && list_eqb beq (dispatched evs) seen
-      && (match stop with Some _ => true | None => Bool.eqb (model_early evs) early end)
+      && (match stop, t with Some _, _ | _, Open => true | None, Eof => Bool.eqb (model_early evs) early end)
   | CReqFlag http11 vals impl => Bool.eqb (req_conn_flag (negb http11) false vals) impl
   | CRespFlag http11 vals impl => Bool.eqb (resp_conn_flag (negb http11) false vals) impl
-  | CClient vals dials => Z.eqb dials (if client_close_conn false false (resp_conn_flag false false vals) then 2 else 1)
+  | CClient http11 ident reqclose reset stream vals dials =>
+      Z.eqb dials (if client_close_conn reset reqclose (resp_conn_flag (negb http11) ident vals) then 2 else 1)
   | CRespSet ops written flag =>
       let h := h_rh (fold_left apply_hop ops (hstate0 200%Z)) in
       list_eqb beq (rhdr_written h) written && Bool.eqb (rh_close h) flag
@@ -54,6 +58,8 @@ Fixpoint handler_close (ops : list hop) (acc : bool) : bool :=
   | [] => acc
   | SetConnClose :: r => handler_close r true
   | SetHdrConn v :: r => handler_close r (has_close [v])
+  | ResetConnClose :: r | DelHdrConn :: r | RespReset _ :: r => handler_close r false
+  | TimeoutRespClose :: r => handler_close r true
   | _ :: r => handler_close r acc
   end.
 
@@ -85,12 +91,14 @@ Fixpoint header_iff_close (rs : list (Z * list bytes)) (early : bool) (shutdown 
 
 Definition prop_ok (c : c10case) : bool :=
   match c with
-  | CHist en cfg reqs ops xst stop cs t wire_i seen early =>
+  | CHist en ad cfg reqs ops xst stop cs t wire_i seen early =>
       let rs := finals wire_i in
       header_iff_close rs early (match stop with Some _ => true | None => false end)
       && reasons_hold cfg stop 1%N reqs ops rs
   | CReqFlag http11 vals impl => if wants_close http11 vals then impl else true
   | CRespFlag http11 vals impl => if has_close vals then impl else true
-  | CClient vals dials => if has_close vals then Z.eqb dials 2 else true
+  | CClient http11 ident reqclose reset stream vals dials =>
+      (* the response said close (or is HTTP/1.0 without keep-alive), or the client itself asked for close *)
+      if wants_close http11 vals || reqclose then Z.eqb dials 2 else true
   | CRespSet ops written flag => Bool.eqb (has_close written) flag
   end.
